@@ -3,7 +3,7 @@
 set -e
 cd "$(dirname "$0")"
 export GOFLAGS=-mod=mod GOPROXY=off GOSUMDB=off GOTOOLCHAIN=local
-mkdir -p .work evidence replays
+mkdir -p .work evidence replays lean/GB/Generated
 (cd extract && go build -o ../.work/extract .)
 ./.work/extract -repo "${VERIF_REPO:-/repo}" -out lean/GB/Generated/Facts.lean -json .work/facts.json
 (cd extract/lockset && go build -o ../../.work/lockset .)
